@@ -148,7 +148,7 @@ func vC17Diff(a, b []string, name func(string) string) string {
 
 func TestVerif_C17_buffered(t *testing.T) {
 	vh.Run(t, vh.Spec{Prop: "C17", Unit: "buffered", Quick: 400, Thorough: 12000, CostMs: 14,
-		Rule: "PRNG history of 5-3000 ProvideOnce / StartProviding(force or not) / StopProviding calls of 1-8 keys over a universe of 2-40 keys (so that operations on the same key meet in one batch), pushed through the real wrapper + dsqueue with batch size in {1,2,3,7,16,100,1024}, idle write time 1 ms..1 min, pauses after every 4th / 30th / 1000th call, inner calls taking 0-60 virtual ms; every 4th history closes and reopens the wrapper on the same datastore mid-way; after draining the inner provider's key set and the per-kind hand-over sets are compared with the one-by-one application; non-trivial = some batch carried >= 2 operations on one key including a stop, or a restart happened with operations still queued; distinct by (history hash)",
+		Rule: "PRNG history of 5-3000 ProvideOnce / StartProviding(force or not) / StopProviding calls of 1-8 keys over a universe of 2-40 keys (so that operations on the same key meet in one batch), pushed through the real wrapper + dsqueue with batch size in {1,2,3,7,16,100,1024}, idle write time 20 ms..1 min, pauses after every 4th / 30th / 1000th call, inner calls taking 0-60 virtual ms; every 4th history closes and reopens the wrapper on the same datastore mid-way; after draining the inner provider's key set and the per-kind hand-over sets are compared with the one-by-one application; non-trivial = some batch carried >= 2 operations on one key including a stop, or a restart happened with operations still queued; distinct by (history hash)",
 		Clauses: []string{"membership", "hand-over", "drained"}},
 		func(c *vh.Case) {
 			r := c.R
@@ -165,7 +165,7 @@ func TestVerif_C17_buffered(t *testing.T) {
 				nOps = 200 + r.Intn(2800)
 			}
 			batch := []int{1, 2, 3, 7, 16, 100, 1024}[r.Intn(7)]
-			idle := []time.Duration{time.Millisecond, 50 * time.Millisecond, time.Second, time.Minute}[r.Intn(4)]
+			idle := []time.Duration{20 * time.Millisecond, 200 * time.Millisecond, time.Second, time.Minute}[r.Intn(4)]
 			delay := time.Duration(r.Intn(6)) * time.Millisecond
 			if r.Intn(3) == 0 {
 				delay = time.Duration(r.Intn(60)) * time.Millisecond
@@ -229,6 +229,7 @@ func TestVerif_C17_buffered(t *testing.T) {
 				}
 			}
 
+			wall0 := time.Now() // real time, observation only
 			inner := vC17NewInner(delay)
 			leftInQueue, queuedAtRestart := -1, 0
 			c.Bubble(t, 12*time.Hour, "hang", func(t *testing.T) {
@@ -280,9 +281,23 @@ func TestVerif_C17_buffered(t *testing.T) {
 						}
 					}
 				}
-				// drain
-				time.Sleep(10*time.Minute + 2*idle)
-				synctest.Wait()
+				// drain: wait until the inner provider saw no new call during two consecutive steps (a step
+				// is longer than the slowest inner call plus the idle write time), at most 2 virtual hours
+				step := 200*time.Millisecond + 2*idle
+				last, quiet := -1, 0
+				for waited := time.Duration(0); quiet < 2 && waited < 2*time.Hour; waited += step {
+					time.Sleep(step)
+					synctest.Wait()
+					inner.mu.Lock()
+					n := inner.calls
+					inner.mu.Unlock()
+					if n == last {
+						quiet++
+					} else {
+						quiet = 0
+					}
+					last = n
+				}
 				if rest, err := bp.queue.GetN(1 << 20); err == nil {
 					leftInQueue = len(rest)
 				}
@@ -294,7 +309,7 @@ func TestVerif_C17_buffered(t *testing.T) {
 			name := func(s string) string { return short[s] }
 			inner.mu.Lock()
 			defer inner.mu.Unlock()
-			c.Check(leftInQueue == 0, "drained", "%d operations still in the queue 10 virtual minutes after the last call", leftInQueue)
+			c.Check(leftInQueue == 0, "drained", "%d operations still in the queue although the worker has been idle for two steps", leftInQueue)
 			got, exp := vC17SetOf(map[string]int{}), vC17SetOf(map[string]int{})
 			for k := range inner.members {
 				got = append(got, k)
@@ -319,6 +334,7 @@ func TestVerif_C17_buffered(t *testing.T) {
 			for _, op := range hist {
 				ops += len(op.keys)
 			}
+			c.ObsMax("case_wall_ms_observation_only", int(time.Since(wall0)/time.Millisecond))
 			c.Obs("operations_enqueued", ops)
 			c.Obs("inner_calls", inner.calls)
 			c.ObsMax("inner_call_keys", inner.maxBatch)
